@@ -6,10 +6,12 @@
 #include <vector>
 #include "StringDictionary.h"
 #include "iterators/IteratorDictStringPlain.h"
+static size_t g_total;
 static IteratorDictStringPlain *mkit(const std::vector<std::string> &S) {
   size_t total = 0; for (auto &s : S) total += s.size() + 1;
   unsigned char *buf = new unsigned char[total]; size_t p = 0;
   for (auto &s : S) { memcpy(buf + p, s.c_str(), s.size() + 1); p += s.size() + 1; }
+  g_total = total;
   return new IteratorDictStringPlain(buf, total);
 }
 static int check(StringDictionary *d, const char *kind) {
@@ -31,7 +33,9 @@ int main(int argc, char **argv) {
   std::vector<std::string> S;
   for (int i = 0; i < 40; i++) { char b[32]; snprintf(b, sizeof b, "key%02d/value%d", i, i * 7); S.push_back(b); }
   int rc = 0;
-  rc |= check(new StringDictionaryHASHRPDAC(mkit(S), 0, 50), "HASHRPDAC");
-  rc |= check(new StringDictionaryHASHRPF(mkit(S), 0, 50), "HASHRPF");
+  IteratorDictStringPlain *i1 = mkit(S);
+  rc |= check(new StringDictionaryHASHRPDAC(i1, g_total, 50), "HASHRPDAC");
+  IteratorDictStringPlain *i2 = mkit(S);
+  rc |= check(new StringDictionaryHASHRPF(i2, g_total, 50), "HASHRPF");
   return rc;
 }
